@@ -19,7 +19,7 @@ from harness.core import Atom, Failure, Mismatch, Result, sx
 MANIFEST = dict(
     design_ref="DESIGN.md §6 C16",
     text="Coq theorems C16_fifo, C16_last_item, C16_empty_resets, C16_drops_justified, C16_conservation, C16_exactly_one, "
-         "C16_completed_put, C16_out_offered, C16_out_nodup, C16_drained over EVERY label list of an LTS of SkipRepeatsQueue "
+         "C16_completed_put, C16_out_offered, C16_out_nodup, C16_drained, C16_producer_order over EVERY label list of an LTS of SkipRepeatsQueue "
          "(any number of producers cut at their two unlocked reads of _last_item and the locked append, one consumer; "
          "induction over runs, no bound), the sequential corollaries C16_seq_* and the event equality law C16_event_eq; "
          "the model is tied to /repo on every run: exhaustive sequential comparison, and lock-step replay of the real "
@@ -643,9 +643,12 @@ def run_concurrent(ctx, res: Result):
         total = 0
         for prog in small_programs():
             n = 0
-            for s in ds.explore(lambda ch: run_program(prog, ch), preemption_bound=2, max_runs=4000):
-                s, items, keep = s
-                judge(res, prog, s, items, pending, "exhaustive<=2")
+            def once(ch, prog=prog):
+                s, items, keep = run_program(prog, ch)
+                s.c16 = (items, keep)
+                return s
+            for s in ds.explore(once, preemption_bound=2, max_runs=4000):
+                judge(res, prog, s, s.c16[0], pending, "exhaustive<=2")
                 n += 1
             total += n
             res.hist("exhaustive_schedules_per_program", n)
